@@ -947,3 +947,40 @@ Proof.
     PAttr, k_created_on, [50; 48; 50; 49]%N, 0%Z, (day_ns + 1800000000000)%Z.
   split; [exact cal25_ok|]. repeat split. discriminate.
 Qed.
+
+(* a number condition the validator admits (not an existence check) carries a literal whose decimal exponent is
+   within +-1000: the rescaling Decimal.Cmp performs against a contact value of exponent x costs at most
+   10^(1000 + |x|) — the evaluator cannot be made to hang by the query text *)
+Lemma validated_number_bounded : forall e r pt key o v,
+  validate_cond e r pt key o v = None -> resolve_value_type r pt key = Some FNumber ->
+  ((is_eq o || is_ne o) && is_nil v = false) ->
+  exists d, value_number v = Some d /\ value_as_number v = d
+            /\ (- max_number_value_exponent <= d_e d <= max_number_value_exponent)%Z.
+Proof.
+  intros e r pt key o v H Hty Hne. unfold validate_cond in H. rewrite Hty in H.
+  destruct (match o with
+            | OpContains =>
+                if is_attr pt && text_eqb key k_name
+                then match name_tokens e v with [] => Some EInvalidPartialName | _ :: _ => None end
+                else if is_attr pt && text_eqb key k_urn || is_urn pt
+                     then if (utf8_len v <? 3)%N then Some EInvalidPartialURN else None
+                     else Some EUnsupportedContains
+            | OpGt | OpLt | OpGe | OpLe => if is_num_or_date FNumber then None else Some EUnsupportedComparison
+            | _ => None
+            end); [discriminate|].
+  rewrite Hne in H.
+  unfold value_as_number. unfold value_number in *.
+  destruct (parse_dec v) as [d|]; [|discriminate].
+  destruct ((d_e d <? - max_number_value_exponent) || (max_number_value_exponent <? d_e d))%Z eqn:E; [discriminate|].
+  exists d. repeat split; apply orb_false_iff in E; destruct E as [E1 E2];
+    [apply Z.ltb_ge in E1; exact E1|apply Z.ltb_ge in E2; exact E2].
+Qed.
+
+Example huge_exponent_rejected :
+  let e := {| e_lower := fun c => c; e_tokens := fun _ => []; e_day_start := fun _ => None;
+              e_valid_lang := fun _ => true |} in
+  let r := {| r_field := fun _ => None; r_group := fun _ => false; r_flow := fun _ => false |} in
+  (* tickets > 1e300000000 *)
+  validate_cond e r PAttr k_tickets OpGt [49; 101; 51; 48; 48; 48; 48; 48; 48; 48; 48]%N = Some EInvalidNumber
+  /\ validate_cond e r PAttr k_tickets OpGt [49; 101; 49; 48; 48; 48]%N = None.
+Proof. split; vm_compute; reflexivity. Qed.
